@@ -1095,6 +1095,10 @@ class SnowflakeGenerator(generator.Generator):
     def dot_sql(self, expression: exp.Dot) -> str:
         this = expression.this
 
+        if not isinstance(this, exp.Expr):
+            # e.g. the empty part of a.b..c
+            return super().dot_sql(expression)
+
         if not this.type:
             from sqlglot.optimizer.annotate_types import annotate_types
 
